@@ -18,6 +18,47 @@ func init() {
 	register(&core.Rule{ID: "SPEC-MATCH", Props: []string{"C02"}, Floor: 300,
 		Doc: "translation validation, purely syntactic: for every generated package (a package with a MakeMPCalJumpTable literal) the MPCal block of its .tla file is parsed, normalised like MPCalNormalizePass (macro expansion, label flattening with synthetic gotos, multiple-assignment desugaring) and every critical section, archetype/procedure table entry and operator definition is compared token by token with what the Go code-generator templates, inverted, recover from the Go source; every Goto/Call target must exist (JT-CLOSED)",
 		Run: runSpecMatch})
+	register(&core.Rule{ID: "RAFT-FIDELITY", Props: []string{"C08"}, Floor: 40,
+		Doc: "the server side of the generated Raft store (archetypes AServer*, their table entries and the operator definitions of raftkvs) is, section by section, the image of raftkvs.tla: the Raft safety invariants are known for the model-checked specification and carry over only to an implementation that takes exactly its steps (vote-granting, log-consistency, commit and term rules). This is the one static handle on the invariants; it is the basis of the argument, not a logical necessary condition, and it deliberately ignores the client archetype, which cannot affect them",
+		Run: runRaftFidelity})
+}
+
+func runRaftFidelity(c *core.Ctx) {
+	tabs, err := scalatab.Load(c.Prog.Root)
+	if err != nil {
+		c.Lost("scala-tables", "%v", err)
+		return
+	}
+	pairs, pkgs := specPairs(c.Prog)
+	found := false
+	for i, pr := range pairs {
+		if pr[0] != an.ModPrefix+"systems/raftkvs" {
+			continue
+		}
+		found = true
+		name := an.ShortPkg(pr[0])
+		if pr[1] == "" {
+			c.Bad(name+"/spec", pkgs[i].Files[0].Pos(), "raftkvs has no .tla file with an --mpcal block next to it")
+			continue
+		}
+		for _, o := range specmatch.MatchPair(pkgs[i], pr[1], tabs, c.Prog.Fset, name) {
+			rest := strings.TrimPrefix(o.Key, name+"/")
+			if strings.HasPrefix(rest, "AClient") {
+				continue
+			}
+			switch o.Verdict {
+			case "ok":
+				c.Ok(o.Key, o.Pos, "%s", o.Detail)
+			case "bad":
+				c.Bad(o.Key, o.Pos, "%s", o.Detail)
+			default:
+				c.Undecided(o.Key, o.Pos, "%s", o.Detail)
+			}
+		}
+	}
+	if !found {
+		c.Lost("raftkvs", "generated package systems/raftkvs not found")
+	}
 }
 
 // specPairs discovers generated packages and their specs.
